@@ -156,6 +156,13 @@ def check_normal(case):
             f"({s1}/{fnr!r}) and {exp_neg} negatives ({s2}/{fpr!r}), i.e. n={exp_pos + exp_neg}, p_pos={exp_pos / (exp_pos + exp_neg)!r}")
     require(BinaryLabel(m.score_class) == BinaryLabel.pos and m.sigma_pos == case["sp"] and m.sigma_neg == case["sn"],
             "ds:from-metrics-params", "")
+    # the caller edits its model (a plain dataclass); the same request made again must be answered correctly again
+    m.n, m.p_pos, m.mu_pos, m.mu_neg = 7, 0.5, m.mu_pos + 1.0, m.mu_neg - 2.0
+    m2 = NormalDataset.from_metrics(fnr, fpr, s1, s2, sigma_pos=case["sp"], sigma_neg=case["sn"])
+    require(_isclose(m2.fnr(0.0), fnr, 1e-9) and _isclose(m2.fpr(0.0), fpr, 1e-9) and m2.n == exp_pos + exp_neg
+            and abs(m2.p_pos - exp_pos / (exp_pos + exp_neg)) <= 4e-16, "ds:from-metrics-repeat",
+            f"from_metrics({fnr!r},{fpr!r},{s1},{s2}) called again after the first model was edited: fnr(0)={m2.fnr(0.0)!r} "
+            f"fpr(0)={m2.fpr(0.0)!r} n={m2.n} p_pos={m2.p_pos!r}")
     # sample
     n = case["n"]
     s = d.sample(n, p_pos=case["p_pos"], rng=np.random.default_rng(case["seed"]))
